@@ -19,6 +19,12 @@ class AstToSqlVisitor(visitor.NodeVisitor):
         super().__init__()
         self.table_alias = table_alias
 
+    def generic_visit(self, node: ast._Node) -> str:
+        ":meta private:"
+        # Every node that can be represented in SQL has an explicit visitor
+        # method. Refuse all others, instead of silently leaving them out:
+        raise exceptions.UnsupportedNodeException(node.__class__.__name__)
+
     def visit_Identifier(self, node: ast.Identifier) -> str:
         ":meta private:"
         # Double quotes for column names acc SQL Standard
